@@ -33,8 +33,8 @@ pub trait Loader {
     fn memory(&self) -> (r: Result<memory::backing::Memory, Error>)
         requires self.memory_req();
 
-    //TMP fn function_entries(&self) -> (r: Result<Vec<FunctionEntry>, Error>)
-    //TMP    requires self.function_entries_req();
+    fn function_entries(&self) -> (r: Result<Vec<FunctionEntry>, Error>)
+        requires self.function_entries_req();
 
     fn program_entry(&self) -> (r: u64)
         requires self.program_entry_req();
